@@ -153,6 +153,57 @@ class SlotGuard(object):
 
         self.py_object = _PyObj()
 
+        # Header fields are read through the frame object's pointer to its InterpreterFrame
+        # (`frame_raw.f_frame.contents.<field>`).  Once the frame has finished, that pointer
+        # has been redirected into the frame object and the old target, in the thread's own
+        # stack memory, may have been reused or unmapped: a read through a pointer value that
+        # is not the frame's current one is a read of memory the frame does not own.
+        real_FrameObject = impl.FrameObject
+
+        class _IFrame(object):
+            def __init__(self, addr):
+                object.__setattr__(self, "_addr", addr)
+
+            def __getattr__(self, name):
+                addr = object.__getattribute__(self, "_addr")
+                fr = guard.frame
+                if fr is not None:
+                    guard.checked += 1
+                    now = impl.FrameObjectFramePointer.from_address(id(fr)).f_frame
+                    if now != addr:
+                        guard.stale.append(addr)
+                        return 0
+                return getattr(impl.InterpreterFrame.from_address(addr), name)
+
+        class _Ptr(object):
+            def __init__(self, addr):
+                self.contents = _IFrame(addr)
+
+        class _FrameObj(object):
+            def __init__(self, addr):
+                object.__setattr__(self, "_real", real_FrameObject.from_address(addr))
+                object.__setattr__(self, "_oaddr", addr)
+
+            def __getattr__(self, name):
+                if name == "f_frame":
+                    return _Ptr(impl.FrameObjectFramePointer.from_address(object.__getattribute__(self, "_oaddr")).f_frame)
+                return getattr(object.__getattribute__(self, "_real"), name)
+
+        class _FrameObjType(object):
+            _fields_ = real_FrameObject._fields_
+
+            @staticmethod
+            def from_address(addr):
+                return _FrameObj(addr)
+
+        self.FrameObjectProxy = _FrameObjType
+        self._IFrame = _IFrame
+
+    def addressof(self, obj):
+        if isinstance(obj, self._IFrame):
+            return object.__getattribute__(obj, "_addr")
+        return self._real.addressof(obj)
+
     def __getattr__(self, name):
         return getattr(self._real, name)
 
@@ -184,6 +235,7 @@ def setup(leg, params):
         if not isinstance(impl.ctypes, SlotGuard):
             GUARD = SlotGuard(impl.ctypes, impl)
             impl.ctypes = GUARD
+            impl.FrameObject = GUARD.FrameObjectProxy
     if sys.version_info < (3, 11) and params.get("mode") == "racing":
         from stackscope import _lowlevel_cpython_310 as impl
 
@@ -493,8 +545,8 @@ def run_racing(ctx):
             guard.stale = []
             raise Violation(
                 "c07_stale_pointer_dereferenced",
-                "%s: inspect_frame took %d reference(s) through value-stack addresses of the inspected frame that the frame did not own (any more) "
-                "at that moment (use after free / stale pointer; the harness withheld the dereference)" % (what, n),
+                "%s: inspect_frame made %d read(s) through addresses (value-stack slots, or the InterpreterFrame header reached through an outdated pointer) that the inspected "
+                "frame did not own (any more) at that moment (use after free / stale pointer; the harness withheld them)" % (what, n),
                 {"events": events[-10:], "progress": state["progress"]},
             )
 
